@@ -6,7 +6,7 @@
     hooks under the token-passing scheduler, compared event by event with this model. *)
 From CB Require Import Threads ThreadSpec ThreadsFine ThreadsTakeMerge ThreadsTakeCombine Inv_threads_take
   Inv_threads_takemerge Inv_threads_take_fine Inv_threads_takecombine Inv_threads_total
-  Inv_threads_always.
+  Inv_threads_always ThreadsTakeMergeFine Inv_threads_takemerge_fine.
 
 Theorem C19_safe max qs s :
   tk_reach max qs s ->
@@ -202,3 +202,50 @@ Theorem C19_always_passes max qs n sch fuel :
   take_check max (rev (tks_tr (run_full (tk_step true max) tk_finished n sch fuel (tk_init qs)))) = [].
 Proof. exact (@take_always_passes max qs n sch fuel). Qed.
 Print Assumptions C19_always_passes.
+
+(** ** take behind merge! with EVERY shared-state access a step (ThreadsTakeMergeFine.v): the sink side (take at
+    max) ends merge's output one cell access at a time, racing with greeting, completing and failing members.
+    The model has the known finding KF4 as the crate has it (a datum overtaking the first greeter's Handshake
+    makes take panic on its empty talkback cell). *)
+
+(** unconditional: any endings, any order of greeting and data *)
+Theorem C19_takemerge_fine_safe max n qs fins s : xf_reach max n qs fins s ->
+  count is_begin_data (xfs_tr s) <= max
+  /\ count is_begin_term (xfs_tr s) <= 1
+  /\ (forall j, count (is_up_term_of j) (xfs_tr s) <= 1).
+Proof. exact (@takemerge_fine_safe max n qs fins s). Qed.
+Print Assumptions C19_takemerge_fine_safe.
+
+(** a panic happens only in the class of KF4: some delivery began before the greeting *)
+Theorem C19_takemerge_fine_panic_only_kf4 max n qs fins s : xf_reach max n qs fins s ->
+  before_greet_ok (rev (xfs_tr s)) = true -> existsb is_panic (xfs_tr s) = false.
+Proof. exact (@takemerge_fine_panic_only_kf4 max n qs fins s). Qed.
+Print Assumptions C19_takemerge_fine_panic_only_kf4.
+
+Theorem C19_takemerge_fine_complete max n qs fins s : 1 <= max -> xf_reach max n qs fins s ->
+  (forall t, t < n -> xf_finished s t = true) -> before_greet_ok (rev (xfs_tr s)) = true ->
+  max <= count is_begin_data (xfs_tr s) -> count is_begin_term (xfs_tr s) = 1.
+Proof. exact (@takemerge_fine_complete max n qs fins s). Qed.
+Print Assumptions C19_takemerge_fine_complete.
+
+Theorem C19_takemerge_fine_driver_run max n qs fins nth sch fuel : 1 <= max ->
+  let s := run_full (xf_step max n) xf_finished nth sch fuel (xf_init n qs fins) in
+  (forall t, t < n -> xf_finished s t = true) -> before_greet_ok (rev (xfs_tr s)) = true ->
+  takemerge_check max (rev (xfs_tr s)) = [].
+Proof. exact (@takemerge_fine_driver_final max n qs fins nth sch fuel). Qed.
+Print Assumptions C19_takemerge_fine_driver_run.
+
+Theorem C19_takemerge_fine_run_total max n qs fins nth sch fuel : fuel >= takemerge_fine_fuel n qs nth ->
+  let s := run_full (xf_step max n) xf_finished nth sch fuel (xf_init n qs fins) in
+  forall t, t < nth -> xf_finished s t = true.
+Proof. exact (@takemerge_fine_run_full_total max n qs fins nth sch fuel). Qed.
+Print Assumptions C19_takemerge_fine_run_total.
+
+(** KF4 itself, machine-checked: take(1) behind merge of 3, member 0's datum overtakes member 1's greeting *)
+Theorem C19_takemerge_fine_kf4_witness :
+  let qs := fun t => match t with 0 => [VN 6; VN 9; VN 3] | 1 => [VN 5; VN 1; VN 6] | _ => [] end in
+  let s := run_full (xf_step 1 3) xf_finished 3 [2;0;1;2;1;1;0;0;0] 400 (xf_init 3 qs (fun _ => FinNone)) in
+  existsb is_panic (xfs_tr s) = true /\ before_greet_ok (rev (xfs_tr s)) = false
+  /\ In TvPanic (takemerge_check 1 (rev (xfs_tr s))).
+Proof. exact takemerge_fine_kf4_witness. Qed.
+Print Assumptions C19_takemerge_fine_kf4_witness.
